@@ -5,37 +5,54 @@ import (
 	"net/netip"
 
 	"github.com/AdguardTeam/AdGuardDNS/internal/agd"
+	"github.com/AdguardTeam/AdGuardDNS/internal/agdnet"
 	"github.com/AdguardTeam/AdGuardDNS/internal/optslog"
 	"github.com/miekg/dns"
 )
 
-// isBlockedByAccess returns true if req is blocked by global or profile access
-// settings.
+// isBlockedGlobally returns true if req is blocked by the global access
+// settings.  It must be called before any other processing of the request, so
+// that the clients blocked globally never receive any response, including the
+// ones about the errors in their requests.
+func (mw *Middleware) isBlockedGlobally(
+	ctx context.Context,
+	req *dns.Msg,
+	remoteIP netip.Addr,
+) (isBlocked bool) {
+	if mw.accessManager.IsBlockedIP(remoteIP) {
+		mw.metrics.IncrementAccessBlockedBySubnet(ctx)
+		optslog.Debug1(ctx, mw.logger, "access denied globally by ip", "remote_ip", remoteIP)
+
+		return true
+	}
+
+	q := req.Question[0]
+	host := agdnet.NormalizeDomain(q.Name)
+	if mw.accessManager.IsBlockedHost(host, q.Qtype) {
+		mw.metrics.IncrementAccessBlockedByHost(ctx)
+		optslog.Debug2(
+			ctx,
+			mw.logger,
+			"access denied globally by rule",
+			"remote_ip", remoteIP,
+			"host", host,
+		)
+
+		return true
+	}
+
+	return false
+}
+
+// isBlockedByAccess returns true if req is blocked by the profile access
+// settings.  The global access settings, which have priority over the profile
+// ones, are checked earlier by [Middleware.isBlockedGlobally].
 func (mw *Middleware) isBlockedByAccess(
 	ctx context.Context,
 	ri *agd.RequestInfo,
 	req *dns.Msg,
 	raddr netip.AddrPort,
 ) (isBlocked bool) {
-	// NOTE:  Global access has priority over the profile one.
-	if mw.accessManager.IsBlockedIP(raddr.Addr()) {
-		mw.metrics.IncrementAccessBlockedBySubnet(ctx)
-		optslog.Debug1(ctx, mw.logger, "access denied globally by ip", "remote_ip", ri.RemoteIP)
-
-		return true
-	} else if mw.accessManager.IsBlockedHost(ri.Host, ri.QType) {
-		mw.metrics.IncrementAccessBlockedByHost(ctx)
-		optslog.Debug2(
-			ctx,
-			mw.logger,
-			"access denied globally by rule",
-			"remote_ip", ri.RemoteIP,
-			"host", ri.Host,
-		)
-
-		return true
-	}
-
 	p, _ := ri.DeviceData()
 	if p == nil {
 		return false
